@@ -129,3 +129,154 @@ Proof.
   destruct (value_rat is_int (dmant d) (dexp d)) as [vn vd]. cbn [fst snd]. destruct Hv as [H1 H2].
   destruct (dneg d); [reflexivity|]. rewrite stars_count. apply Z2Nat.id. apply Z.div_pos; lia.
 Qed.
+
+(* ---------- automatic places, non-integer values ---------- *)
+Lemma ndig_div10 m : 10 <= m -> ndig (m / 10) = ndig m - 1.
+Proof.
+  intros Hm. pose proof (ndig_spec m ltac:(lia)) as [Hk [Hlo Hhi]]. set (k := ndig m) in *.
+  assert (2 <= k).
+  { destruct (Z_lt_le_dec k 2); [|assumption]. assert (k = 1) by lia. rewrite H in Hhi. lia. }
+  unfold ndig. apply nbdig_unique; try lia.
+  replace k with ((k - 1) + 1) in Hhi by lia. replace (k - 1) with ((k - 1 - 1) + 1) in Hlo by lia.
+  rewrite pow_succ_b in Hlo, Hhi by lia. split.
+  - apply Z.div_le_lower_bound; lia.
+  - apply Z.div_lt_upper_bound; lia.
+Qed.
+
+Lemma strip0_spec : forall fuel m e, 0 < m ->
+  let '(m', e') := strip0 fuel m e in
+  0 < m' /\ e <= e' /\ m = m' * 10 ^ (e' - e) /\ (ndig m <= Z.of_nat fuel -> m' mod 10 <> 0).
+Proof.
+  induction fuel as [|f IH]; intros m e Hm.
+  - cbn [strip0]. replace (e - e) with 0 by lia. rewrite Z.pow_0_r. repeat split; try lia.
+    intros H. pose proof (ndig_spec m Hm). change (Z.of_nat 0) with 0 in H. lia.
+  - cbn [strip0]. destruct (Z.ltb_spec 0 m); [|lia]. cbn [andb].
+    destruct (Z.eqb_spec (m mod 10) 0) as [Hz|Hnz].
+    + assert (10 <= m) by (pose proof (Z.div_mod m 10 ltac:(lia)); lia).
+      specialize (IH (m / 10) (e + 1) ltac:(apply Z.div_str_pos; lia)).
+      destruct (strip0 f (m / 10) (e + 1)) as [m' e']. destruct IH as (H1 & H2 & H3 & H4).
+      split; [assumption|]. split; [lia|]. split.
+      * replace (e' - e) with ((e' - (e + 1)) + 1) by lia. rewrite pow_succ_b by lia.
+        pose proof (Z.div_mod m 10 ltac:(lia)). nia.
+      * intros Hfuel. apply H4. rewrite ndig_div10 by assumption. lia.
+    + replace (e - e) with 0 by lia. rewrite Z.pow_0_r. repeat split; try lia.
+Qed.
+
+Lemma repr_str_positional sep m1 e1 : 0 < m1 ->
+  let m := fst (strip0 (Z.to_nat (ndig m1)) m1 e1) in
+  let e := snd (strip0 (Z.to_nat (ndig m1)) m1 e1) in
+  positional sep m e = true ->
+  let M := if 0 <=? e then m * 10 ^ (e + 1) else m in
+  let P := if 0 <=? e then 1 else - e in
+  0 < M /\ 0 < P /\ filter is_dd (repr_str sep m1 e1) = plain_digits M P /\ existsb is_sg (repr_str sep m1 e1) = false /\
+  m1 = m * 10 ^ (e - e1) /\ e1 <= e /\ (e < 0 -> m mod 10 <> 0).
+Proof.
+  intros Hm1. cbv zeta. unfold repr_str, positional.
+  pose proof (strip0_spec (Z.to_nat (ndig m1)) m1 e1 Hm1) as Hs.
+  destruct (strip0 (Z.to_nat (ndig m1)) m1 e1) as [m e]. cbn [fst snd].
+  destruct Hs as (Hm & He & Hval & Hstrip). intros Hpos. rewrite Hpos.
+  assert (Hnz : m mod 10 <> 0).
+  { apply Hstrip. pose proof (ndig_spec m1 Hm1). lia. }
+  destruct (Z.leb_spec 0 e).
+  - assert (0 < 10 ^ e) by (apply pow_pos_b; lia). assert (0 < 10 ^ (e + 1)) by (apply pow_pos_b; lia).
+    split; [nia|]. split; [lia|]. split; [|split; [|split; [assumption|split; [assumption|lia]]]].
+    + rewrite filter_app. destruct (grouped_dd sep (zstr (m * 10 ^ e)) (zstr_digits _)) as [Gd Gs]. rewrite Gd.
+      unfold plain_digits. change (0 <? 1) with true. cbv iota. rewrite Z.pow_1_r.
+      replace (m * 10 ^ (e + 1) / 10) with (m * 10 ^ e) by (rewrite pow_succ_b by lia; replace (m * (10 * 10 ^ e)) with (m * 10 ^ e * 10) by ring; rewrite Z.div_mul; lia).
+      f_equal. change (Z.to_nat 1) with 1%nat. unfold digs. cbn [bdigs app].
+      replace ((m * 10 ^ (e + 1)) mod 10) with 0
+        by (rewrite pow_succ_b by lia; replace (m * (10 * 10 ^ e)) with (m * 10 ^ e * 10) by ring; rewrite Z.mod_mul; lia).
+      reflexivity.
+    + rewrite existsb_app. destruct (grouped_dd sep (zstr (m * 10 ^ e)) (zstr_digits _)) as [Gd Gs]. rewrite Gs. reflexivity.
+  - split; [lia|]. split; [lia|]. split; [apply fixed_str_dd|]. split; [apply fixed_str_nosign|].
+    split; [assumption|]. split; [assumption|]. intros _. assumption.
+Qed.
+
+(* the auto path of _format_decimal for a non-integer value, positional notation *)
+Lemma auto_fraction_lemma is_int d places sep ns pct : AUTO <= places -> 0 < dmant d ->
+  let vn := fst (value_rat is_int (dmant d) (dexp d)) in
+  let vd := snd (value_rat is_int (dmant d) (dexp d)) in
+  let m1 := fst (round_sig SIG (dmant d) (dexp d)) in
+  let e1 := snd (round_sig SIG (dmant d) (dexp d)) in
+  let m := fst (strip0 (Z.to_nat (ndig m1)) m1 e1) in
+  let e := snd (strip0 (Z.to_nat (ndig m1)) m1 e1) in
+  vn mod vd <> 0 -> positional sep m e = true ->
+  let M := if 0 <=? e then m * 10 ^ (e + 1) else m in
+  let P := if 0 <=? e then 1 else - e in
+  readback_decimal (format_decimal is_int d places sep ns pct) = Some (shown_negative d ns 1, M, P) /\
+  m1 = m * 10 ^ (e - e1) /\ e1 <= e /\ (e < 0 -> m mod 10 <> 0).
+Proof.
+  intros Hp Hm. cbv zeta. unfold format_decimal.
+  destruct (value_rat is_int (dmant d) (dexp d)) as [vn vd]. cbn [fst snd].
+  pose proof (round_sig_pos SIG (dmant d) (dexp d) eq_refl Hm) as Hm1.
+  destruct (round_sig SIG (dmant d) (dexp d)) as [m1 e1]. cbn [fst snd] in *.
+  intros Hni Hpos.
+  destruct (Z.eqb_spec (vn mod vd) 0) as [E|_]; [contradiction|]. cbn [andb].
+  replace (AUTO <=? places) with true by (symmetry; apply Z.leb_le; lia).
+  pose proof (repr_str_positional sep m1 e1 Hm1) as Hr. cbv zeta in Hr. specialize (Hr Hpos).
+  set (m := fst (strip0 (Z.to_nat (ndig m1)) m1 e1)) in *. set (e := snd (strip0 (Z.to_nat (ndig m1)) m1 e1)) in *.
+  set (M := if 0 <=? e then m * 10 ^ (e + 1) else m) in *. set (P := if 0 <=? e then 1 else - e) in *.
+  destruct Hr as (HM & HP & Hdd & Hsg & Hv1 & Hv2 & Hv3).
+  split; [|split; [assumption|split; assumption]].
+  set (R := repr_str sep m1 e1) in *.
+  assert (Hgen : forall pre post : list N,
+     Forall (fun c => is_dd c = false) pre -> Forall (fun c => is_dd c = false) post ->
+     readback_decimal (pre ++ R ++ post) = Some (existsb is_sg pre || existsb is_sg post, M, P)).
+  { intros pre post H1 H2. apply readback_of_plain; try lia.
+    - rewrite filter_wrap by assumption. exact Hdd.
+    - rewrite existsb_wrap, Hsg, orb_false_r. reflexivity. }
+  assert (Hisneg : is_neg d = dneg d).
+  { unfold is_neg. replace (0 <? dmant d) with true by (symmetry; apply Z.ltb_lt; lia). apply andb_true_r. }
+  unfold shown_negative. rewrite Hisneg. change (0 <? 1) with true.
+  destruct (dneg d) eqn:Hd; cbn [andb].
+  - destruct (Z.leb_spec 2 ns).
+    + replace (1 <=? ns) with true by (symmetry; apply Z.leb_le; lia). cbn [app].
+      destruct pct.
+      * specialize (Hgen [c_lpar] [c_pct; c_rpar] ltac:(repeat constructor) ltac:(repeat constructor)).
+        cbn [app] in *. rewrite <- app_assoc. cbn [app]. exact Hgen.
+      * specialize (Hgen [c_lpar] [c_rpar] ltac:(repeat constructor) ltac:(repeat constructor)). exact Hgen.
+    + destruct (Z.leb_spec 1 ns); cbn [app].
+      * destruct pct.
+        -- specialize (Hgen [] [c_pct] ltac:(repeat constructor) ltac:(repeat constructor)). exact Hgen.
+        -- specialize (Hgen [] [] ltac:(repeat constructor) ltac:(repeat constructor)). rewrite app_nil_r in Hgen. exact Hgen.
+      * destruct pct.
+        -- specialize (Hgen [c_min] [c_pct] ltac:(repeat constructor) ltac:(repeat constructor)).
+           cbn [app] in *. exact Hgen.
+        -- specialize (Hgen [c_min] [] ltac:(repeat constructor) ltac:(repeat constructor)). rewrite app_nil_r in Hgen. exact Hgen.
+  - cbn [app]. destruct pct.
+    + specialize (Hgen [] [c_pct] ltac:(repeat constructor) ltac:(repeat constructor)). exact Hgen.
+    + specialize (Hgen [] [] ltac:(repeat constructor) ltac:(repeat constructor)). rewrite app_nil_r in Hgen. exact Hgen.
+Qed.
+
+(* ---------- _expand_quotes ---------- *)
+(* only quote characters are ever removed: every other character, in particular every digit of the
+   formatted number, is kept in order *)
+Lemma expand_quotes_keeps : forall n s b, (length s <= n)%nat ->
+  filter (fun c => negb (c =? 39)%N) (expand_quotes s b) = filter (fun c => negb (c =? 39)%N) s.
+Proof.
+  induction n as [|n IH]; intros s b Hl.
+  - destruct s; [reflexivity|cbn in Hl; lia].
+  - destruct s as [|c r]; [reflexivity|]. cbn [expand_quotes]. cbn [length] in Hl.
+    destruct (N.eqb_spec c 39) as [->|Hc].
+    + destruct r as [|c2 r2]; [reflexivity|]. cbn [length] in Hl.
+      destruct (N.eqb_spec c2 39) as [->|Hc2].
+      * cbn [filter]. change (negb (39 =? 39)%N) with false. cbv iota. apply IH. lia.
+      * cbn [filter]. change (negb (39 =? 39)%N) with false. cbv iota.
+        rewrite IH by (cbn [length]; lia). reflexivity.
+    + cbn [filter]. replace (c =? 39)%N with false by (symmetry; apply N.eqb_neq; assumption). cbn [negb].
+      f_equal. apply IH. lia.
+Qed.
+
+Lemma expand_quotes_digits s b : filter is_dd (expand_quotes s b) = filter is_dd s.
+Proof.
+  assert (H : forall l, filter is_dd l = filter is_dd (filter (fun c => negb (c =? 39)%N) l)).
+  { induction l as [|x l IH]; [reflexivity|]. cbn [filter].
+    destruct (N.eqb_spec x 39) as [->|]; cbn [negb filter]; [exact IH|]. rewrite IH. reflexivity. }
+  rewrite (H (expand_quotes s b)), (H s). f_equal. apply (expand_quotes_keeps (length s)). lia.
+Qed.
+
+Lemma expand_quotes_id s b : Forall (fun c => (c =? 39)%N = false) s -> expand_quotes s b = s.
+Proof.
+  intros H. revert b. induction H as [|c r Hc _ IH]; intros b; [reflexivity|].
+  cbn [expand_quotes]. rewrite Hc. f_equal. apply IH.
+Qed.
